@@ -2,7 +2,7 @@
 # Formula tables: inputs on which the pinned tree once broke a property (found by sub-agents reading the code, each repaired by a `fix:` commit) and
 # their neighbours, with the outcome the property's text demands.  Bounded stand-ins (never counted as proved); run after each property's own `extra`.
 import math
-from props.common import formula_table, bounded
+from props.common import formula_table, bounded, guarded_parse
 
 CODES = ['#ERROR!', '#DIV/0!', '#NAME?', '#N/A', '#NULL!', '#NUM!', '#REF!', '#VALUE!', '#GETTING_DATA']
 
@@ -35,7 +35,7 @@ def c04(report, env):
             flat = '%s%s%s%s%s' % (a, o1, b, o2, c)
             left = '(%s%s%s)%s%s' % (a, o1, b, o2, c)
             cases += 1
-            r1, r2 = p.parse(flat), p.parse(left)
+            r1, r2 = guarded_parse(p, flat), guarded_parse(p, left)
             if r1 != r2 and len(fails) < 5:
                 fails.append({'formula': flat, 'detail': 'comparison operators group left to right: %s gives %r but %s gives %r' % (flat, r1, left, r2)})
     bounded(report, 'C04.comparison-chains', 'every ordered pair of the 6 comparison operators x 5^3 operand triples (numbers, a logical, a text): a op b op c against (a op b) op c', cases, fails)
@@ -110,7 +110,7 @@ def c15_sweep(report, env):
                 for k in (1, 2, 3):
                     cases += 1
                     f = 'SUBSTITUTE("%s","%s","Z",%d)' % (text, old, k)
-                    r = p.parse(f)
+                    r = guarded_parse(p, f)
                     want = _kth(text, old, 'Z', k)
                     if r != {'result': want, 'error': None} and len(fails) < 5:
                         fails.append({'formula': f, 'detail': 'expected %r, got %r' % (want, r)})
@@ -198,7 +198,7 @@ def c17(report, env):
         for n in list(range(0, 26)) + [30, 50, 100, 170]:
             for fn in order + order:
                 f = '%s(%d)' % (fn, n)
-                r = p.parse(f)
+                r = guarded_parse(p, f)
                 cases += 1
                 want = math.factorial(n) if fn == 'FACT' else dfact(n)
                 if r != {'result': want, 'error': None} and len(fails) < 5:
@@ -207,8 +207,8 @@ def c17(report, env):
     args = ['0', '1', '2', '3', '5', '6', '7', '10', '12', '2.5', '-3', '-2.5', '255']
     forms = ['%s(%s)' % (n, a) if n not in ('ROUND', 'ROUNDUP', 'ROUNDDOWN') else '%s(%s,0)' % (n, a) for a in args for n in names]
     p1, p2 = e2e.new_parser(), e2e.new_parser()
-    o1 = {f: p1.parse(f) for f in forms}
-    o2 = {f: p2.parse(f) for f in reversed(forms)}
+    o1 = {f: guarded_parse(p1, f) for f in forms}
+    o2 = {f: guarded_parse(p2, f) for f in reversed(forms)}
     for f in forms:
         cases += 1
         if repr(o1[f]) != repr(o2[f]) and len(fails) < 5:
@@ -324,6 +324,159 @@ def c03(report, env):
     table_obligations(report, 'C03', res)
 
 
+def c09(report, env):
+    # a custom function receives the evaluated arguments in order whatever their values are - also text that equals a separator
+    from pyvc import e2e
+    fails, cases = [], 0
+    got = []
+    p = e2e.new_parser()
+    p.set_function('REC', lambda *a: got.append(a) or len(a))
+    for f, want in (('REC(",","a","b")', (',', 'a', 'b')), ('REC(1;";";2)', (1, ';', 2)), ('REC(";")', (';',)), ('REC(",")', (',',)), ('REC("\\")', ('\\',)),
+                    ('REC("a",",")', ('a', ',')), ('REC(",",",")', (',', ',')), ('REC(";";";";";")', (';', ';', ';')), ('REC(1\\"\\"\\2)', (1, '\\', 2)),
+                    ('REC("a";",";"b")', ('a', ',', 'b')), ('REC(",";;"x")', (',', None, 'x')), ('REC({1,2},",")', ([1, 2], ','))):
+        del got[:]
+        r = guarded_parse(p, f)
+        cases += 1
+        if (r.get('error') is not None or got != [want]) and len(fails) < 5:
+            fails.append({'formula': f, 'detail': 'the custom function must be called once with %r; calls %r, outcome %r' % (want, got, r)})
+    bounded(report, 'C09.separator-valued-arguments', '12 calls of a recording custom function whose arguments are the separator characters themselves, in the three separator styles', cases, fails)
+
+
+def c10(report, env):
+    from pyvc import e2e
+    fails, cases = [], 0
+    # (1) a listener that raised once: later references to the same cell still raise their event and take the setter's value
+    p = e2e.new_parser()
+    state = {'fail': True}
+    seen = []
+
+    def cell(c, setter):
+        seen.append(c.label)
+        if state['fail']:
+            raise RuntimeError('backend down')
+        setter(7)
+    p.on('callCellValue', cell)
+    r0 = guarded_parse(p, 'C3+1')
+    state['fail'] = False
+    for f, want, ev in (('C3+1', 8, ['C3']), ('$C$3*2', 14, ['$C$3']), ('c3+C3', 14, ['C3', 'C3']), ('D4+C3', 14, ['D4', 'C3'])):
+        del seen[:]
+        r = guarded_parse(p, f)
+        cases += 1
+        if (r != {'result': want, 'error': None} or seen != ev) and len(fails) < 5:
+            fails.append({'formula': f, 'detail': 'after a listener raised for C3 (%r): expected %r with events %r, got %r with events %r' % (r0, want, ev, r, seen)})
+    # (2) a listener of P1 that evaluates on ANOTHER parser P2: the rest of P1's formula still raises its events on P1, none on P2
+    p1, p2 = e2e.new_parser(), e2e.new_parser()
+    ev1, ev2 = [], []
+    vals = {'A1': 10, 'B1': 15, 'C1': 1}
+
+    def cell1(c, setter):
+        ev1.append(c.label)
+        if c.label == 'A1':
+            p2.parse('1+Z9')
+        setter(vals.get(c.label, 0))
+    p1.on('callCellValue', cell1)
+    p1.on('callVariable', lambda name, setter: (ev1.append(name), setter(100)))
+    p1.set_function('F', lambda *a: (ev1.append('F'), sum(a))[1])
+    p2.on('callCellValue', lambda c, setter: (ev2.append(c.label), setter(1000)))
+    p2.on('callVariable', lambda name, setter: (ev2.append(name), setter(5000)))
+    for f, want, e1 in (('A1+B1', 25, ['A1', 'B1']), ('B1+A1', 25, ['B1', 'A1']), ('A1+F(B1,C1)+total', 126, ['A1', 'B1', 'C1', 'F', 'total']), ('SUM(A1,B1,C1)', 26, ['A1', 'B1', 'C1'])):
+        del ev1[:]
+        del ev2[:]
+        r = guarded_parse(p1, f)
+        cases += 1
+        if (r != {'result': want, 'error': None} or ev1 != e1 or ev2 != ['Z9']) and len(fails) < 5:
+            fails.append({'formula': f, 'detail': 'a listener of this parser evaluates 1+Z9 on another parser: expected %r, events %r here and [Z9] there; got %r, %r here, %r there' % (want, e1, r, ev1, ev2)})
+    bounded(report, 'C10.raising-listener-then-again-and-foreign-evaluation', '4 references after a listener raised once; 4 formulas whose first cell listener evaluates on another parser (events and values stay with their parser)', cases, fails)
+
+
+def c11_same_object(report, env):
+    # regrouping: the same array OBJECT may supply items more than once (SUM(row,row), a range answer reusing one row, [[..]]*n)
+    from pyvc import e2e
+    fails, cases = [], 0
+    row = [1, 2, 3]
+    p = e2e.new_parser()
+    p.set_variable('row', row)
+    p.set_variable('twice', [row, row])
+    p.set_variable('tiled', [[1, 2, 3]] * 3)
+    p.on('callRangeValue', lambda a, b, setter: setter([row, row]))
+    for f, want in (('SUM(row,row)', 12), ('SUM(twice)', 12), ('SUM(tiled)', 18), ('COUNT(row,row,row)', 9), ('MAX(twice)', 3), ('AVERAGE(row,row)', 2.0), ('SUM(A1:C2)', 12),
+                    ('PRODUCT(twice)', 36), ('MEDIAN(tiled)', 2), ('COUNTIF(twice,">1")', 4), ('SUMIF(tiled,">=2")', 15), ('SUM(row,twice,tiled)', 36), ('MIN(row,row)', 1)):
+        r = guarded_parse(p, f)
+        cases += 1
+        if not (r['error'] is None and r['result'] == want) and len(fails) < 5:
+            fails.append({'formula': f, 'detail': 'row = [1,2,3], twice = [row,row], tiled = [[1,2,3]]*3 (one object several times, no cycle): expected %r, got %r' % (want, r)})
+    bounded(report, 'C11.one-array-object-several-times', '13 formulas over arrays in which one list object occurs more than once without containing itself', cases, fails)
+
+
+def c15_case_and_amp(report, env):
+    rows = [('LOWER("straße")', 'straße'), ('LOWER("ΟΔΟΣ")', 'οδος'), ('LOWER("ﬁN")', 'ﬁn'), ('LOWER("ŉA")', 'ŉa'), ('LEN(LOWER("Straße"))', 6), ('LOWER(LOWER("Maße"))', 'maße'),
+            ('LOWER("ǅ")', 'ǆ'), ('UPPER("abc")', 'ABC'), ('LEN(LOWER("ﬀﬁﬂ"))', 3),
+            # the identities exactly as the statement writes them: & binds tighter than the comparison
+            ('LEFT("hello",2)&RIGHT("hello",3)="hello"', True), ('"hello"=LEFT("hello",2)&RIGHT("hello",3)', True), ('"ab"="a"&"b"', True), ('"a"&"b"="ab"', True),
+            ('LEN("a"&"b")=LEN("a")+LEN("b")', True), ('LEFT("hello",0)&RIGHT("hello",5)="hello"', True), ('MID("hello",1,3)=LEFT("hello",3)', True),
+            ('IF(LEFT("xyz",1)&RIGHT("xyz",2)="xyz","same","differs")', 'same'), ('"a"&"b"<>"ab"', False), ('"a"&"b"<"ac"', True)]
+    formula_table(report, 'C15.only-letter-case-and-identities-as-written', 'LOWER over sharp s, final sigma, ligatures and digraphs (9); the identities of the statement written with & next to a comparison (10)', rows)
+
+
+def c16_pv(report, env):
+    def err(r):
+        return r['result'] is None and r['error'] in CODES
+    err.__doc__ = 'an error (at rate -100% no present value satisfies the annuity equation)'
+    rows = [('PV(-1,10,100)', err), ('PV(-1,-2,100)', err), ('PV("-1",3,5)', err), ('PV(-100%,10,100)', err), ('PV(0-TRUE,4,1)', err), ('PV(-1,10,100,50)', err), ('PV(-1.0,1,1)', err)]
+    rows += [('PV(0,10,100)', -1000), ('PV(0,10,100,50)', -1050), ('ROUND(PV(0.05,10,100),6)', round(-(100 * (1 - 1.05 ** -10) / 0.05), 6))]
+    formula_table(report, 'C16.pv-at-minus-one', 'PV at rate -1 in 7 spellings (an error, never a number), 3 neighbours', rows)
+
+
+def c17_big_and_long(report, env):
+    rows = [('SIGN(FACT(171))', 1), ('SIGN(10^400)', 1), ('SIGN(-(10^400))', -1), ('SIGN(0-FACT(200))', -1), ('SIGN(10^400-10^400)', 0), ('SIGN(2^1024)', 1), ('SIGN(-(2^1024)-1)', -1)]
+    for a, b in ((1234567, 1), (1, 1000001), (123456789012, -5), (3, -123456789012), (-9999999, 9999999), (10 ** 15 + 1, 10 ** 15 - 1), (0, 7654321), (100000, 1000000)):
+        rows.append(('IMREAL(COMPLEX(%d,%d))' % (a, b), a))
+        rows.append(('IMAGINARY(COMPLEX(%d,%d))' % (a, b), b))
+    formula_table(report, 'C17.sign-of-big-integers-and-long-complex-parts', 'SIGN of 7 integers too large for a float; IMREAL / IMAGINARY of COMPLEX with parts of 7 to 16 digits (16)', rows)
+
+
+def c18_close_numbers(report, env):
+    rows = [('MATCH(5550100002,{5550100001,5550100002,5550100003},0)', 2), ('MATCH(5550100004,{5550100001,5550100002},0)', '#N/A'),
+            ('INDEX({5550100001,5550100002,5550100003},MATCH(5550100003,{5550100001,5550100002,5550100003},0))', 5550100003),
+            ('MATCH(43831.5,{43831.49999,43831.5},0)', 2), ('MATCH(1000000001,{1000000000,1000000001},0)', 2), ('MATCH(1000000002,{1000000000,1000000001},0)', '#N/A'),
+            ('MATCH(1E0*1000000001,{1000000000,1000000001,1000000002},0)', lambda r: True), ('MATCH(99999999999999,{99999999999998,99999999999999},0)', 2),
+            ('MATCH(0.1+0.2,{0.3,0.30000000000000004},0)', 2)]
+    rows = [r for r in rows if not callable(r[1])]
+    formula_table(report, 'C18.exact-match-of-close-numbers', 'MATCH type 0 over large integers and fractions that differ by 1 ulp .. 1e-9 relative (8): equal means equal', rows)
+
+
+def c19(report, env):
+    # strings that are not cell labels decompose to nothing; a label is a label whatever str subclass carries it
+    from pyvc import native
+    extract_label = native.real_function('hotxlfp.helper.cell:extract_label')
+
+    class Ref(str):
+        pass
+    import enum
+
+    class Named(str, enum.Enum):
+        TOTAL = 'B7'
+    fails, cases = [], 0
+    for s_ in ('Sheet1!A1', '!A1', 'A1!B2', '#REF!A1', 'A1!', "'My sheet'!A1", 'x!$A$1', 'A1:B2', 'A1 ', ' A1', 'A-1', 'A1.0', '1A', '$', 'A$', '$A', 'A$$1', '$$A1'):
+        cases += 1
+        try:
+            out = extract_label(s_)
+        except Exception as e:
+            out = 'raises %r' % (e,)
+        if out != [] and len(fails) < 5:
+            fails.append({'formula': 'extract_label(%r)' % s_, 'detail': 'not a cell label, must decompose to nothing: got %r' % (out,)})
+    for s_, want in ((Ref('A1'), ('1', 0, False, 'A', 0, False)), (Ref('$b$7'), ('7', 6, True, 'b', 1, True)), (Named.TOTAL, ('7', 6, False, 'B', 1, False)), (Ref('aa$10'), ('10', 9, True, 'aa', 26, False))):
+        cases += 1
+        try:
+            out = extract_label(s_)
+            got = (out[0].label, out[0].index, out[0].is_absolute, out[1].label, out[1].index, out[1].is_absolute) if len(out) == 2 else out
+        except Exception as e:
+            got = 'raises %r' % (e,)
+        if got != want and len(fails) < 5:
+            fails.append({'formula': 'extract_label(<%s %r>)' % (type(s_).__name__, str.__str__(s_)), 'detail': 'a label held by a str subclass: expected %r, got %r' % (want, got)})
+    bounded(report, 'C19.non-labels-and-str-subclasses', '18 strings that are not cell labels (sheet qualifiers, ranges, stray $ ...) decompose to nothing; 4 labels held by str subclasses decompose like the plain text', cases, fails, kind='table')
+
+
 # ---- known findings decided by a concrete formula (KNOWN-FINDING while they still fail; an ordinary violation if not listed) -------------
 def k14(report, env):
     import datetime
@@ -344,11 +497,11 @@ def k14(report, env):
                 continue
             cases += 1
             f = 'DAYS(DATE(%d,%d,%d),DATE(%d,%d,%d))' % (b.year, b.month, b.day, a.year, a.month, a.day)
-            r = p.parse(f)
+            r = guarded_parse(p, f)
             if not (r['error'] is None and r['result'] == (b - a).days) and len(fails) < 5:
                 fails.append({'formula': f, 'detail': 'expected %d, got %r' % ((b - a).days, r)})
             f = 'DATEDIF(DATE(%d,%d,%d),DATE(%d,%d,%d),"d")' % (a.year, a.month, a.day, b.year, b.month, b.day)
-            r = p.parse(f)
+            r = guarded_parse(p, f)
             cases += 1
             if not (r['error'] is None and r['result'] == (b - a).days) and len(fails) < 5:
                 fails.append({'formula': f, 'detail': 'expected %d, got %r' % ((b - a).days, r)})
@@ -369,7 +522,7 @@ def k05(report, env):
     got = []
     p = e2e.new_parser()
     p.set_function('F', lambda *a: got.append(a) or 0)
-    r = p.parse('F(1,2;3,4)')
+    r = guarded_parse(p, 'F(1,2;3,4)')
     bad = r['error'] is None and got != [(1, 2, 3, 4)]
     known_e2e(report, 'C05-mixed-separators-in-a-call', bad, 'F(1,2;3,4)', 'a call with mixed separators is accepted but passes %r, not one argument per slot' % (got,))
 
@@ -379,7 +532,7 @@ def k09(report, env):
     from props.common import known_e2e
     p = e2e.new_parser()
     p.set_variable('a', 5)
-    r = p.parse('a.b')
+    r = guarded_parse(p, 'a.b')
     known_e2e(report, 'C09-dotted-names', r != {'result': None, 'error': '#NAME?'} and r['error'] is None, 'a.b', 'with only a set, a.b evaluates to %r instead of #NAME?' % (r,))
 
 
@@ -387,13 +540,13 @@ def k15(report, env):
     from pyvc import e2e
     from props.common import known_e2e
     p = e2e.new_parser()
-    once = p.parse('PROPER("a\u0130b")')
+    once = guarded_parse(p, 'PROPER("a\u0130b")')
     p.set_variable('t', once['result'])
-    twice = p.parse('PROPER(t)')
+    twice = guarded_parse(p, 'PROPER(t)')
     known_e2e(report, 'C15-proper-dotted-capital-i', once['result'] != twice['result'], 'PROPER(PROPER("a\u0130b"))', 'PROPER is not idempotent: %r then %r' % (once, twice))
 
 
-TABLES = {'C02': [c02], 'C03': [c03], 'C04': [c04, c04_text_leaves], 'C05': [k05], 'C06': [c06], 'C08': [c08], 'C09': [k09], 'C11': [c11, k11], 'C12': [c12], 'C14': [k14], 'C15': [c15, c15_sweep, k15], 'C16': [c16], 'C17': [c17], 'C18': [c18], 'C20': [c20]}
+TABLES = {'C02': [c02], 'C03': [c03], 'C04': [c04, c04_text_leaves], 'C05': [k05], 'C06': [c06], 'C08': [c08], 'C09': [c09, k09], 'C10': [c10], 'C11': [c11, c11_same_object, k11], 'C12': [c12], 'C14': [k14], 'C15': [c15, c15_sweep, c15_case_and_amp, k15], 'C16': [c16, c16_pv], 'C17': [c17, c17_big_and_long], 'C18': [c18, c18_close_numbers], 'C19': [c19], 'C20': [c20]}
 
 
 def run(report, env):
